@@ -292,7 +292,13 @@ const uint8_t* InterfacePayload::getVendorDataLengthPtr() const
 
 uint16_t InterfacePayload::toUint16(const uint8_t* ptr) const
 {
-    return swapEndian(*reinterpret_cast<const uint16_t*>(ptr));
+    // A length field and the bytes it announces have to lie inside the payload
+    const uint8_t* end = payloadData.data() + payloadData.size();
+    if (ptr == nullptr || end < ptr || static_cast<size_t>(end - ptr) < sizeof(uint16_t))
+        return 0;
+
+    const uint16_t length = swapEndian(*reinterpret_cast<const uint16_t*>(ptr));
+    return static_cast<size_t>(end - ptr) - sizeof(uint16_t) >= length ? length : 0;
 }
 
 END_NAMESPACE_ASAM_CMP
